@@ -11,10 +11,14 @@
                       (inductive closure; on a cyclic table this is still a finite set);
     * the results are finite sets: a list is compared by `Nodup` + membership (`IsSetOf`);
     * the caller is never its own child/descendant;
-    * `parentOf`    : the process named by the caller's recorded ppid, unless that PID now belongs
-                      to a process younger than the caller; the root (lowest listed PID) has none;
-    * `Chain`       : `parent()` iterated up to the root — or, on a table whose parent links are
+    * `parentLit`   : LITERAL reading — the process named by the caller's recorded ppid, unless that PID now
+                      belongs to a process younger than the caller (or to nobody). No lowest-PID rule;
+    * `ChainLit`    : `parentLit` iterated until there is no parent — or, on a table whose parent links are
                       cyclic, up to the first process that is already on the chain;
+    * `parentOf`/`Chain` : the same WITH psutil's lowest-PID stop ("the lowest listed PID has no parent") — a
+                      characterisation of the code, equal to the literal reading whenever the lowest listed
+                      PID shows no parent (`RootParentless`: every table a kernel shows without hidepid), and
+                      different from it otherwise (known finding C05-lowest-pid-parent, Props/C05.lean);
     * `Recycled`    : the caller's PID now belongs to a process with another start time;
     * `Alive`       : the caller's PID still belongs to the incarnation the object was built for.
 
@@ -61,10 +65,35 @@ def Alive (look : Look) (me : Caller) : Prop := look me.pid = some me.ctime
 
 def ChildT (T : Table) (pid ct : Nat) (r : Row) : Prop := r ∈ T ∧ r.ppid = pid ∧ ct ≤ r.start
 
+/-- LITERAL: the parent of the process `(pid, ct)` in table `T` — the process named by its recorded ppid,
+    unless that PID is not listed or now belongs to a younger process -/
+def parentLit (T : Table) (pid ct : Nat) : Option Row :=
+  match T.find pid with
+  | none => none
+  | some r =>
+    match T.find r.ppid with
+    | none => none
+    | some q => if q.start ≤ ct then some q else none
+
+/-- LITERAL: `parentLit` iterated from `(pid, ct)`; `seen` = PIDs already on the chain (caller included) -/
+inductive ChainLit (T : Table) : List Nat → Nat → Nat → List Row → Prop where
+  | root {seen : List Nat} {pid ct : Nat} : parentLit T pid ct = none → ChainLit T seen pid ct []
+  | cycle {seen : List Nat} {pid ct : Nat} {q : Row} :
+      parentLit T pid ct = some q → q.pid ∈ seen → ChainLit T seen pid ct []
+  | step {seen : List Nat} {pid ct : Nat} {q : Row} {rest : List Row} :
+      parentLit T pid ct = some q → q.pid ∉ seen →
+      ChainLit T (q.pid :: seen) q.pid q.start rest → ChainLit T seen pid ct (q :: rest)
+
 /-- the root of a table is its lowest listed PID -/
 def isRoot (T : Table) (pid : Nat) : Bool := minPid? T == some pid
 
-/-- the parent of the process `me` (pid, start time) in table `T` -/
+/-- the lowest listed PID shows no parent: its recorded ppid is not listed or names a younger process (PID 1 /
+    the init of a PID namespace has ppid 0; false e.g. under hidepid=2 when the lowest VISIBLE PID is an ordinary
+    process whose parent got a higher PID) -/
+def RootParentless (T : Table) : Prop :=
+  ∀ m r, minPid? T = some m → T.find m = some r → parentLit T m r.start = none
+
+/-- CHARACTERISATION OF THE CODE: `parentLit` with psutil's lowest-PID stop in front -/
 def parentOf (T : Table) (pid ct : Nat) : Option Row :=
   if isRoot T pid then none
   else
@@ -120,6 +149,14 @@ def descSat (links : PpidMap) (look : Look) (ct root : Nat) : List Nat :=
 /-- descendants, caller excluded -/
 def descList (links : PpidMap) (look : Look) (ct root : Nat) : List Nat :=
   (descSat links look ct root).filter (· != root)
+
+/-- LITERAL: iterate `parentLit`, stop when there is no parent or at a PID already on the chain -/
+def chainLitList (T : Table) : Nat → List Nat → Nat → Nat → List Row
+  | 0, _, _, _ => []
+  | n + 1, seen, pid, ct =>
+    match parentLit T pid ct with
+    | none => []
+    | some q => if seen.contains q.pid then [] else q :: chainLitList T n (q.pid :: seen) q.pid q.start
 
 /-- iterate `parentOf`, stop at the root or at a PID already on the chain -/
 def chainList (T : Table) : Nat → List Nat → Nat → Nat → List Row
